@@ -87,21 +87,22 @@ def write_fixture(wd):
     c15.write_fixture(wd)
 
 
-def load_pair(fmt):
-    ref, est1, _ = c15.load_model(fmt)
+def load_pair(fmt, epoch=0.0):
+    ref, est1, _ = c15.load_model(fmt, epoch)
     if fmt == "euroc":
         # evo_ape euroc: reference from the csv, estimate from a TUM file
-        _, est_tum, _ = c15.load_model("tum")
+        _, est_tum, _ = c15.load_model("tum", epoch)
         return ref, est_tum
     return ref, est1
 
 
-def file_args(fmt):
+def file_args(fmt, epoch=0.0):
+    e = "_e" if epoch else ""
     if fmt == "tum":
-        return ["tum", "ref.txt", "est1.txt"]
+        return ["tum", "ref%s.txt" % e, "est1%s.txt" % e]
     if fmt == "kitti":
         return ["kitti", "ref.kit", "est1.kit"]
-    return ["euroc", "ref.csv", "est1.txt"]
+    return ["euroc", "ref%s.csv" % e, "est1%s.txt" % e]
 
 
 ALIGN_OPTS = {"none": [], "a": ["-a"], "s": ["-s"], "as": ["-a", "-s"],
@@ -111,7 +112,8 @@ ALIGN_OPTS = {"none": [], "a": ["-a"], "s": ["-s"], "as": ["-a", "-s"],
 
 def common_argv(pt):
     fmt = pt["fmt"]
-    argv = file_args(fmt)
+    epoch = pt.get("epoch", 0.0)
+    argv = file_args(fmt, epoch)
     argv += ["-r", pt["relation"]]
     argv += ALIGN_OPTS[pt["align"]]
     if pt["n_to_align"] != -1:
@@ -125,8 +127,8 @@ def common_argv(pt):
         if pt["t_offset"]:
             argv += ["--t_offset", str(pt["t_offset"])]
         if pt["crop"]:
-            argv += ["--t_start", str(pt["crop"][0]), "--t_end",
-                     str(pt["crop"][1])]
+            argv += ["--t_start", repr(pt["crop"][0] + epoch), "--t_end",
+                     repr(pt["crop"][1] + epoch)]
     if pt["project"]:
         argv += ["--project_to_plane", pt["project"]]
     return argv
@@ -136,7 +138,8 @@ def processed_pair(pt):
     """reference pipeline up to (and including) projection.
     -> (ref, est) RTraj; raises pl.Refusal / pl.Ambiguous"""
     fmt = pt["fmt"]
-    ref, est = load_pair(fmt)
+    epoch = pt.get("epoch", 0.0) if fmt != "kitti" else 0.0
+    ref, est = load_pair(fmt, epoch)
     ref, est = ref.copy(), est.copy()
     timed = fmt != "kitti"
     if pt["downsample"]:
@@ -150,7 +153,7 @@ def processed_pair(pt):
         est = pl.motion_filter(est, d, a)
     if timed:
         if pt["crop"]:
-            ref = pl.crop(ref, pt["crop"][0], pt["crop"][1])
+            ref = pl.crop(ref, pt["crop"][0] + epoch, pt["crop"][1] + epoch)
             if ref.n == 0:
                 raise pl.Refusal("no-association")
         ref, est = pl.associate(ref, est, pt["t_max_diff"], pt["t_offset"])
